@@ -226,8 +226,22 @@ func checkC08(c *Ctx) {
 						// a size helper that ranges over ReflectAPIs and adds len of the inner sets
 						for _, cb := range callee.Blocks {
 							for _, ci := range cb.Instrs {
-								if r, ok := ci.(*ssa.Range); ok && isMapType(r.X.Type()) && w.BackSlice(r.X, sliceOpt{}).Fields["pkgCache.ReflectAPIs"] {
-									measuresInner = true
+								r, ok := ci.(*ssa.Range)
+								if !ok || !isMapType(r.X.Type()) || !w.BackSlice(r.X, sliceOpt{}).Fields["pkgCache.ReflectAPIs"] {
+									continue
+								}
+								for _, ref := range *r.Referrers() {
+									nx, ok := ref.(*ssa.Next)
+									if !ok {
+										continue
+									}
+									for bb := range loopBlocks(nx.Block()) {
+										for _, ii := range bb.Instrs {
+											if cl, ok := ii.(*ssa.Call); ok && calleeName(cl) == "builtin.len" && w.BackSlice(cl.Call.Args[0], sliceOpt{}).Values[nx] {
+												measuresInner = true
+											}
+										}
+									}
 								}
 							}
 						}
